@@ -97,7 +97,8 @@ class OrderTyping:
                 o = self.unordered(fn, side, at, _seen)
                 if o:
                     return o
-            if all(isinstance(s, ast.Call) and isinstance(s.func, ast.Attribute) and s.func.attr in ("keys", "items") for s in (e.left, e.right)):
+            # dict-view algebra always yields a set: d.keys() - xs, d.keys() & other.keys(), d.items() ^ ...
+            if any(isinstance(s, ast.Call) and isinstance(s.func, ast.Attribute) and s.func.attr in ("keys", "items") and not s.args for s in (e.left, e.right)):
                 return "set (dict-view algebra)"
             return None
         if isinstance(e, (ast.ListComp, ast.GeneratorExp, ast.DictComp)):
@@ -280,6 +281,14 @@ class OrderTyping:
             return self._loop(fn, p)
         if isinstance(p, ast.FormattedValue):
             return "format", "formatted into a string"
+        if isinstance(p, ast.Assign) and p.value is x and self._keeps_order(fn, x, n):
+            for t in p.targets:
+                if isinstance(t, (ast.Subscript, ast.Attribute)):
+                    root = t
+                    while isinstance(root, (ast.Subscript, ast.Attribute)):
+                        root = root.value
+                    if isinstance(root, ast.Name):
+                        return "store", f"stored as `{src(t)[:40]}` - a list / dict keeps that order for whoever iterates or serialises it later"
         if isinstance(p, ast.Return):
             return None  # summarised for callers (one level)
         if isinstance(p, ast.Compare):
@@ -287,6 +296,17 @@ class OrderTyping:
         if isinstance(p, (ast.Yield, ast.YieldFrom)):
             return "yield", "yielded in that order"
         return None
+
+    def _keeps_order(self, fn: Func, x: ast.AST, n, depth: int = 0) -> bool:
+        """x is a list / dict / tuple (a container that remembers the order it was built in), not a set"""
+        if isinstance(x, (ast.ListComp, ast.DictComp, ast.List, ast.Tuple, ast.Dict)):
+            return True
+        if isinstance(x, ast.Call) and dotted(x.func) in ("list", "tuple", "dict", "OrderedDict", "collections.OrderedDict", "dict.fromkeys"):
+            return True
+        if isinstance(x, ast.Name) and depth < 3:
+            ds = [d for d in self.ctx.rd(fn).reaching(x.id, n) if d.kind in ("assign", "walrus") and d.value is not None]
+            return bool(ds) and any(self._keeps_order(fn, d.value, d.node, depth + 1) for d in ds)
+        return False
 
     def _dict_like(self, fn: Func, x: ast.AST, n) -> bool:
         def is_d(v):
